@@ -402,8 +402,8 @@ def py_eval(e, env):
             raise Stuck()
         return r
     vs = [py_eval(c, env) for c in ch]
-    if any(v[1] is None for v in vs):
-        raise Stuck()
+    if t[0] in ("un", "bin", "index", "slice") and any(v[1] is None for v in vs):
+        raise Stuck()        # needs a numeric value this oracle does not compute (float // % **)
     if t[0] == "un":
         v = vs[0]
         if t[1] == "neg" and v[0] == "int":
@@ -648,6 +648,17 @@ class Classes:
             if x[0] == "node" and not (tag_strict(x[1]) and self.valued(x)):
                 return False
         return not self.unvalued_bound(e)
+
+    def hetero_dep(self, n, seen=None):
+        """n's initializer, or one it depends on, contains a list/set/dict literal (Known_C06_hetero_collection
+        is decided on the value: the caller has already found that the value does not inhabit the type)"""
+        seen = seen if seen is not None else set()
+        if n in seen or n not in self.decl:
+            return False
+        seen.add(n)
+        e = self.decl[n]
+        return any(x[0] == "node" and x[1][0] in ("list", "set", "dict") for x in subexprs(e)) or \
+            any(self.hetero_dep(m, seen) for m in idents(e))
 
     def lazy_rhs_raises(self, e):
         """Known_C06_eager_and_or: an index/slice inside the right operand of and/or"""
@@ -1007,8 +1018,7 @@ def judge(prog, out, chk, findings, stats):
             if pv[0] == "val" and c["ty"] is not None:
                 stats["type_checked"] += 1
                 if not py_has_type(pv[1], c["ty"]):
-                    hetero = any(x[0] == "node" and x[1][0] in ("list", "set", "dict") for x in subexprs(e))
-                    if hetero and "hetero-collection" in known and pv[1][0] in ("list", "set", "dict", "tuple"):
+                    if cls.hetero_dep(n) and "hetero-collection" in known and pv[1][0] in ("list", "set", "dict", "tuple"):
                         stats["known:hetero-collection"] += 1
                     else:
                         fails.append({"what": "type", "const": cname(n), "published_type": c["ty"], "run_time": repr(pv[1])})
@@ -1026,7 +1036,10 @@ def judge(prog, out, chk, findings, stats):
     if n_rt_diag:
         raising = [n for n in decl if orc.value(n) == ("raise", "IndexError") or orc.value(n) == ("raise", "ValueError")]
         stats["diag_checked"] += n_rt_diag
-        if len(raising) < n_rt_diag:
+        stuck = [n for n in decl if orc.value(n)[0] == "stuck"]
+        if len(raising) < n_rt_diag and len(raising) + len(stuck) >= n_rt_diag:
+            stats["diag_unjudged_oracle_stuck"] = stats.get("diag_unjudged_oracle_stuck", 0) + 1
+        elif len(raising) < n_rt_diag:
             lazy = any(cls.lazy_rhs_raises(e) for _, e in decl.values())
             taint = any(cls.tainted(n) for n in decl)
             other_raise = any(orc.value(n)[0] == "raise" for n in decl)
@@ -1088,7 +1101,7 @@ def run(chk):
     ]
     chk.assumptions = [
         "fragment: None literals, the `expected` type for EMPTY annotated collections, duplicate const names and Named(\"FrozenStr\") spellings are outside the model (never generated)",
-        "slice loops are modelled over Z: |step| > MAX - len is C05's finding slice-step-overflow (hypothesis slice_guard), not reported twice",
+        "slice loops are modelled over Z; since fix d68de38 the real helper stops when the index leaves i64, which is the Z behaviour (before it, |step| > MAX - len was C05's finding slice-step-overflow: a debug-built compiler panicked on such a const; that class is still recognised and attributed to C05)",
         "the error half of the link stateful evaluator = pure evaluator is checked behaviourally on every generated program (render_pure), the success half is a theorem",
         "const-nonconst-call (`const X: int = 7 // 2` emitted as a non-const fn call) is a C02 defect: such a const never holds a value, so C06 has nothing to compare; the generator of the build tier stays inside the buildable fragment",
         "frozen collection VALUES are compared by execution only (thorough tier)",
